@@ -203,11 +203,16 @@ def fresh(e: ast.expr, model: Model, module: str, params: Set[str], locals_ok: S
                             return False, f"result of `{norm(e.func)}`, which returns {why}"
                     return True, "factory function returning a fresh allocation"
             return False, f"result of `{norm(e.func)}` (not a constructor)"
+        if norm(e.func) in ("set", "bytearray", "list", "dict", "bytes", "frozenset") and len(e.args) <= 1 and not e.keywords:
+            return True, "copying constructor"          # bytearray(x) / list(x) copy their argument: the result is nobody else's
         for a in list(e.args) + [k.value for k in e.keywords]:
             ok, why = fresh(a, model, module, params, locals_ok, _depth)
             if not ok:
                 return ok, why
         return True, "constructor call"
+    if isinstance(e, ast.Subscript) and isinstance(e.slice, ast.Slice) and isinstance(e.value, ast.Attribute) and isinstance(e.value.value, ast.Name) and \
+            e.value.value.id == "self" and e.value.attr in locals_ok:
+        return True, "slice (a copy) of a container the session owns"
     return False, f"expression `{norm(e)[:40]}`"
 
 
@@ -255,6 +260,56 @@ def check(model: Model, run: Run) -> None:
                             run.fail(Finding("I1-attributes-freshly-allocated", init.qualname, f"self.{t.attr} = {norm(s.value)[:60]}",
                                              f"session attribute `{t.attr}` is initialised from {why}, not from a fresh allocation: state would be shared between sessions", model.loc(c.module, s)))
     run.floor("session attributes created in __init__", n_attrs, 7)
+    # I8: the containers a session owns stay its own - wherever one of them is re-assigned (the residue after a receive, a reset on
+    # closing) the new value is again a fresh allocation, never the caller's buffer or another object's list
+    n_re = 0
+    for q in SESSION_CLASSES:
+        c = model.cls(q)
+        init = c.methods.get("__init__") or model.find_method(q, "__init__")
+        owned = set()
+        for k in c.mro:
+            kc = model.classes.get(k)
+            ini = kc.methods.get("__init__") if kc else None
+            if ini is None:
+                continue
+            for s_ in walk_no_nested(ini.node):
+                if isinstance(s_, (ast.Assign, ast.AnnAssign)) and s_.value is not None:
+                    for t in (s_.targets if isinstance(s_, ast.Assign) else [s_.target]):
+                        if isinstance(t, ast.Attribute) and isinstance(t.value, ast.Name) and t.value.id == "self" and \
+                                (isinstance(s_.value, (ast.List, ast.Dict, ast.Set)) or (isinstance(s_.value, ast.Call) and norm(s_.value.func) in ("set", "bytearray", "list", "dict"))):
+                            owned.add(t.attr)
+        for mname, mfi in c.methods.items():
+            if mname == "__init__":
+                continue
+            ps = set(mfi.params()[1:])
+            for s_ in walk_no_nested(mfi.node):
+                if isinstance(s_, (ast.Assign, ast.AnnAssign)) and s_.value is not None:
+                    for t in (s_.targets if isinstance(s_, ast.Assign) else [s_.target]):
+                        if isinstance(t, ast.Attribute) and isinstance(t.value, ast.Name) and t.value.id == "self" and t.attr in owned:
+                            n_re += 1
+                            val = s_.value
+                            # a local that is only another name for an owned container (`buffer = self._outgoing_buffer`)
+                            al = {}
+                            for a_ in walk_no_nested(mfi.node):
+                                if isinstance(a_, ast.Assign) and len(a_.targets) == 1 and isinstance(a_.targets[0], ast.Name) and isinstance(a_.value, ast.Attribute) and \
+                                        isinstance(a_.value.value, ast.Name) and a_.value.value.id == "self" and a_.value.attr in owned:
+                                    nm_ = a_.targets[0].id
+                                    if sum(1 for x in walk_no_nested(mfi.node) if isinstance(x, ast.Name) and x.id == nm_ and isinstance(x.ctx, ast.Store)) == 1:
+                                        al[nm_] = a_.value
+                            if al:
+                                import copy as _cp
+
+                                class _A(ast.NodeTransformer):
+                                    def visit_Name(self, n_):
+                                        return _cp.deepcopy(al[n_.id]) if isinstance(n_.ctx, ast.Load) and n_.id in al else n_
+                                val = _A().visit(_cp.deepcopy(val))
+                            ok, why = fresh(val, model, c.module, ps, set(owned))
+                            run.ob("I8-owned-containers-stay-fresh", ok, {"class": c.name, "method": mname, "attribute": t.attr, "value": norm(s_.value)[:60], "why": why})
+                            if not ok:
+                                run.fail(Finding("I8-owned-containers-stay-fresh", mfi.qualname, f"self.{t.attr} = {norm(s_.value)[:60]}",
+                                                 f"{c.name}.{mname} re-assigns the session's own `{t.attr}` from {why}: the session then shares a mutable object with its caller "
+                                                 "or with another session", model.loc(c.module, s_)))
+    run.floor("re-assignments of session-owned containers", n_re, 3)
     # attributes first assigned outside __init__ (created lazily) in session classes
     for q in SESSION_CLASSES:
         c = model.cls(q)
